@@ -22,8 +22,16 @@ structure NodeInfo where
   parent : Nat
 deriving DecidableEq, Repr, Inhabited
 
+/-- what kind of node roots the tree: a document node (source documents, `document()` loads) or a document fragment
+node (result tree fragments, also nested ones, reached through exsl:node-set / xalan:nodeset) -/
+inductive RootKind where
+  | document | fragment
+deriving DecidableEq, Repr, Inhabited
+
 structure Doc where
   nodes : List NodeInfo
+  /-- node type of node 0 -/
+  rootKind : RootKind := .document
 deriving Repr
 
 namespace Doc
